@@ -30,6 +30,9 @@ pub enum Step {
     FreshPeer,
     /// ReturnError only: exhaust a peer, take the hint, wait that long, retry
     HintProbe { peer: u8 },
+    /// Block only: two never-used peers over quota at the same time, A with a long queue
+    /// (burst + extra + 6 requests, issued first) and B with a short one (burst + extra)
+    Contend { extra: u8 },
 }
 
 #[derive(Clone, Debug, Serialize, Deserialize, PartialEq, Eq, Hash)]
@@ -127,6 +130,7 @@ async fn check_async(case: &Case, obs: &mut Obs) -> Result<(), Fail> {
     let mut next_fresh = 100u8;
     let mut budget_block = (400 / case.period_ms.max(2) as u32).max(4); // keep Block cases short
     let mut saw_refusal = false;
+    let mut contended = false;
 
     for step in &case.steps {
         match step {
@@ -174,6 +178,33 @@ async fn check_async(case: &Case, obs: &mut Obs) -> Result<(), Fail> {
                     if took > period * burst + Duration::from_millis(200) {
                         obs.label("fresh-peer-slow(noise?)");
                     }
+                }
+            }
+            Step::Contend { extra } => {
+                // ordering oracle, so only periods that dwarf scheduling noise; once per case
+                if !case.block || case.period_ms < 15 || contended {
+                    continue;
+                }
+                contended = true;
+                let (pa, pb) = (next_fresh, next_fresh.wrapping_add(1));
+                next_fresh = next_fresh.wrapping_add(2);
+                let nb = burst + *extra as u32 % 3 + 1;
+                let na = nb + 6;
+                let ids_a: Vec<u64> = (0..na).map(|_| { let i = next_id; next_id += 1; i }).collect();
+                let ids_b: Vec<u64> = (0..nb).map(|_| { let i = next_id; next_id += 1; i }).collect();
+                let all = ids_a.iter().map(|id| (*id, pa)).chain(ids_b.iter().map(|id| (*id, pb)));
+                let run = futures::future::join_all(all.map(|(id, p)| one(&svc, &shared, id, p, case.id_layout)));
+                match tokio::time::timeout(period * (na + 4) * 4 + Duration::from_secs(5), run).await {
+                    Ok(v) => outcomes.extend(v),
+                    Err(_) => vfail!("c19:block-starved", "Block mode: two contending peers ({na} and {nb} requests) not all admitted (period {:?}, burst {burst})", period),
+                }
+                // B's last request is due at (nb - burst) periods; A's request number nb + 3 three periods later.
+                let inside = shared.lock().unwrap().inside.clone();
+                let b_last = ids_b.iter().filter_map(|id| inside.get(id)).max().copied();
+                let a_later = inside.get(&ids_a[(nb + 2) as usize]).copied();
+                if let (Some(b_last), Some(a_later)) = (b_last, a_later) {
+                    vensure!(b_last < a_later, "c19:peer-interference", "Block mode, period {:?}, burst {burst}: peer B's last of {nb} requests was admitted {:?} AFTER peer A's request number {} (both started together; B's own quota admits it three periods earlier): B waited for A's queue", period, b_last.duration_since(a_later), nb + 3);
+                    obs.label("two-peers-blocked-at-once");
                 }
             }
             Step::HintProbe { peer } => {
@@ -279,7 +310,7 @@ impl Part for Histories {
     type Case = Case;
     fn name(&self) -> &'static str { "histories" }
     fn rule(&self) -> &'static str {
-        "quotas with period 2-50 ms and burst 1-8, 1-4 peers, both wait modes, two services from one layer; scripts of back-to-back/concurrent bursts, sleeps, fresh-peer probes and hint probes run in REAL time; each admission bracketed [before call, inside service]; oracle: per-peer GCRA envelope over every window, refusals never reach the service and carry parseable wait-nanos <= 2 periods (zero only as a rare clock race), waiting the hinted time suffices, first `burst` requests of every peer admitted, fresh peers unaffected by exhausted ones, Block mode admits everything; non-trivial = demand exceeded the quota (refusal or blocked wait) with >=2 peers active; distinct by script"
+        "quotas with period 2-50 ms and burst 1-8, 1-4 peers, both wait modes, two services from one layer; scripts of back-to-back/concurrent bursts, sleeps, fresh-peer probes and hint probes run in REAL time; each admission bracketed [before call, inside service]; oracle: per-peer GCRA envelope over every window, refusals never reach the service and carry parseable wait-nanos <= 2 periods (zero only as a rare clock race), waiting the hinted time suffices, first `burst` requests of every peer admitted, fresh peers unaffected by exhausted ones, Block mode admits everything, and (Block, period >= 15 ms) of two peers blocked at once the one with the short queue is served on its own schedule, before the other's queue has drained (ordering oracle); non-trivial = demand exceeded the quota (refusal or blocked wait) with >=2 peers active; distinct by script"
     }
     fn deterministic(&self) -> bool { false }
     fn strategy(&self, _t: Tier) -> BoxedStrategy<Case> {
@@ -288,6 +319,7 @@ impl Part for Histories {
             3 => (0u8..25).prop_map(Step::SleepMs),
             1 => Just(Step::FreshPeer),
             1 => (0u8..4).prop_map(|peer| Step::HintProbe { peer }),
+            1 => (0u8..3).prop_map(|extra| Step::Contend { extra }),
         ];
         (2u8..50, 1u8..9, any::<bool>(), 1u8..5, 0u8..5, prop::collection::vec(step, 1..10))
             .prop_map(|(period_ms, burst, block, peers, id_layout, steps)| Case { period_ms, burst, block, peers, id_layout, steps })
